@@ -123,7 +123,9 @@ def validate_param_value(value, quoted=True):
 
 # chars presence of which in parameter value will be cause the value
 # to be enclosed in double-quotes
-QUOTABLE = re.compile("[,;: ’']")
+# a backslash must be quoted as well: Contentline.parts() would otherwise read
+# an unquoted value ending in a backslash as an escaped ':' / ';' / ','
+QUOTABLE = re.compile("[,;: ’'\\\\]")
 
 
 def dquote(val):
